@@ -2,7 +2,8 @@
    Statements only; proofs are in theories/MetaJsonLemmas.v and theories/SchemaLemmas.v.
    schema_published / schema_exported / schema_model_raw are regenerated from the repository on
    every run (harness/translate_schema.py -> theories/Gen/Schema.v). *)
-From Geff Require Import Base Meta MetaLemmas Json Schema SchemaLemmas MetaJson MetaJsonLemmas.
+From Geff Require Import Dtype Vlen Tree KeyStore MetaKeys MetaKeysLemmas.
+From Geff Require Import Base Meta MetaLemmas Json Schema SchemaLemmas MetaJson MetaJsonLemmas MetaDomainLemmas.
 From Geff.Gen Require Import Consts.
 From Geff.Gen Require Import Schema.
 Open Scope string_scope.
@@ -21,14 +22,53 @@ Theorem C08_roundtrip_text : forall gv m, inv_md m = true ->
 Proof. exact roundtrip_text_both. Qed.
 Print Assumptions C08_roundtrip_text.
 
-(* ---- through the attributes of a zarr group (either format), for ANY prior state of the group:
-        read returns the object, the "geff" attribute is the dump, every other attribute is untouched *)
+(* ---- through the attributes of a zarr group, on the ATTRIBUTE MAP of the root group (gstate = the map, or no group).
+        The first conjunct is the round trip; the second and third are facts about `jset` on an association list
+        (true of any replace-or-append function) and do not by themselves say anything about a zarr store: the
+        statement on the keys of a store, per format, is C08_attrs_keys below (MetaKeys.v), and C08_attrs_refines
+        shows that the key-level write is this attribute-map write. *)
 Theorem C08_attrs : forall gv m st, inv_md m = true ->
   md_read gv (md_write m st) = Ok m
   /\ attr_get "geff" (md_write m st) = Some (to_json m)
   /\ (forall k, k <> "geff" -> attr_get k (md_write m st) = attr_get k st).
 Proof. exact attrs_all. Qed.
 Print Assumptions C08_attrs.
+
+(* ---- the same on the KEYS of the store (KeyStore.v: .zgroup / .zattrs documents for zarr format 2, zarr.json for
+        format 3), for ANY store content: other attributes, member groups and arrays below the root, chunks,
+        consolidated metadata inside a format-3 group document.  A successful write (md_write_k: root absent, or a
+        group zarr accepts -- C08_attrs_keys_total) is read back as the object; the root's attribute map afterwards
+        holds the dump under "geff" and every other attribute as before; and every key of the store other than
+        the ONE attribute document (.zattrs for format 2, zarr.json for format 3 or a new root) is untouched. *)
+Theorem C08_attrs_keys : forall gv m ks ks', inv_md m = true -> md_write_k m ks = Ok ks' ->
+  md_read_k gv ks' = Ok m
+  /\ (exists a', root_attrs_any ks' = Some a' /\ jget "geff" a' = Some (to_json m)
+                 /\ forall k, k <> "geff" -> jget k a' = attr_get k (root_attrs_any ks))
+  /\ (forall k, k <> attr_doc_key ks -> klookup k ks' = klookup k ks).
+Proof. exact attrs_keys_all. Qed.
+Print Assumptions C08_attrs_keys.
+
+(* the key-level write IS the attribute-map write of C08_attrs, in the format the root group had (3 for a new one) *)
+Theorem C08_attrs_refines : forall m ks ks', md_write_k m ks = Ok ks' ->
+  exists f, probe_root ks' = RGroup f (match md_write m (root_attrs_any ks) with Some a => a | None => [] end)
+            /\ (forall f0 a0, probe_root ks = RGroup f0 a0 -> f = f0) /\ (probe_root ks = RNone -> f = V3).
+Proof. exact md_write_k_root. Qed.
+Print Assumptions C08_attrs_refines.
+
+(* zarr format 3 rewrites the whole group document: every member but `attributes` (zarr_format, node_type,
+   consolidated_metadata) is kept *)
+Theorem C08_attrs_keys_v3_members : forall m ks ks' a, md_write_k m ks = Ok ks' -> probe_root ks = RGroup V3 a ->
+  exists d d', klookup ["zarr.json"] ks = Some (KDoc (JObj d)) /\ klookup ["zarr.json"] ks' = Some (KDoc (JObj d')) /\
+               forall field, field <> "attributes" -> jget field d' = jget field d.
+Proof. exact md_write_k_v3_members. Qed.
+Print Assumptions C08_attrs_keys_v3_members.
+
+Theorem C08_attrs_keys_total : forall m ks,
+  (probe_root ks = RNone \/ (exists a, probe_root ks = RGroup V2 a) \/
+   (exists a d, probe_root ks = RGroup V3 a /\ klookup ["zarr.json"] ks = Some (KDoc (JObj d)) /\ v3_doc_known d = true))
+  <-> exists ks', md_write_k m ks = Ok ks'.
+Proof. exact md_write_k_total. Qed.
+Print Assumptions C08_attrs_keys_total.
 
 (* ---- the serialised form of every object of the domain is valid under the published schema *)
 Theorem C08_valid : forall m, inv_md m = true -> validates schema_published (wrap (to_json m)) = true.
@@ -40,10 +80,21 @@ Proof. exact valid_published_text. Qed.
 Print Assumptions C08_valid_text.
 
 (* ---- no drift: the published schema and the schema exported from the Python model give the same
-        verdict on EVERY document *)
+        verdict on EVERY document.  How much this says TODAY: the two regenerated terms are syntactically
+        equal (C08_no_drift_today), so the statement is an instance of reflexivity; it is kept because both
+        terms are regenerated from the repository on every run, and then the proof goes through
+        schema_equiv (C08_schema_equiv_sound, sound for all schema documents), which tolerates reordered
+        members and dropped annotations; any other difference between the two files -- also one that no
+        document can observe -- breaks the build (C08_no_drift_syntactic).  The statements with independent
+        content are C08_no_drift_model (the adjustment "version required" re-applied in Coq to the raw
+        pydantic schema) and the equivalence with the hand-written schema_ref used by C08_valid. *)
 Theorem C08_no_drift : forall d, validates schema_published d = validates schema_exported d.
 Proof. exact no_drift. Qed.
 Print Assumptions C08_no_drift.
+
+Theorem C08_no_drift_today : jv_eqb schema_published schema_exported = true.
+Proof. vm_compute. reflexivity. Qed.
+Print Assumptions C08_no_drift_today.
 
 (* the same against the pydantic model's own schema, the "version is required" adjustment re-applied in Coq *)
 Theorem C08_no_drift_model : forall d, validates schema_published d = validates (require_version schema_model_raw) d.
@@ -79,6 +130,34 @@ Theorem C08_domain_complete : forall gv v m,
   version_ok gv = true -> construct gv v = Ok m -> md_finite m = true -> inv_md m = true.
 Proof. exact construct_in_domain. Qed.
 Print Assumptions C08_domain_complete.
+
+(* ---- the domain is closed under every operation of C07 (Meta.run: constructions / parses, top-level
+        assignments with their roll-back, copies, update_metadata_axes, create_or_update_metadata,
+        add_or_update_props_metadata): inv_md is a structural part, which every reachable object has,
+        and finiteness.  So "every valid metadata object" of this property reads: every object C07 can reach
+        that holds no inf / nan -- and the theorems above apply to all of them. *)
+Theorem C08_domain_split : forall m, inv_md m = true <-> inv_struct m = true /\ md_finite m = true.
+Proof. exact inv_md_iff. Qed.
+Print Assumptions C08_domain_split.
+
+Theorem C08_domain_reachable : forall gv ops m,
+  version_ok gv = true -> In m (run gv [] ops) -> md_finite m = true -> inv_md m = true.
+Proof. exact reachable_in_domain. Qed.
+Print Assumptions C08_domain_reachable.
+
+(* conversely every object of the domain is reachable (by one construction from its own dump) *)
+Theorem C08_domain_is_reachable : forall gv m, inv_md m = true -> In m (run gv [] [OConstruct (to_json m)]).
+Proof. exact domain_reachable. Qed.
+Print Assumptions C08_domain_is_reachable.
+
+(* the round trips and the schema verdict for every reachable finite object *)
+Theorem C08_reachable : forall gv ops m,
+  version_ok gv = true -> In m (run gv [] ops) -> md_finite m = true ->
+  of_json gv (to_json m) = Ok m /\ to_json_text m = to_json m /\
+  (forall st, md_read gv (md_write m st) = Ok m) /\
+  validates schema_published (wrap (to_json m)) = true.
+Proof. exact reachable_roundtrip. Qed.
+Print Assumptions C08_reachable.
 
 (* ---- why the finiteness guard: the statement for every constructible object is false on the faithful
         model (JSON text writes null for an infinite axis bound) -- outside the property's quantifier *)
@@ -124,3 +203,35 @@ Proof. vm_compute. repeat split. Qed.
 (* the equivalence check is not the constant `true` either: dropping the adjustment is seen *)
 Example C08_nonvacuous_equiv : schema_equiv schema_published schema_model_raw = false.
 Proof. vm_compute. reflexivity. Qed.
+
+(* the closure theorem is not vacuous: an object built by an assignment, update_metadata_axes and
+   add_or_update_props_metadata (none of them a direct `construct` output) is in the domain *)
+Example C08_nonvacuous_reachable :
+  let ops := [OConstruct (to_json rich_md);
+              OAssign 0 FHints JNull;
+              OUpdateAxes 0 (mkAL (Some [JStr "t"; JStr "y"]) None (Some [JStr "time"; JStr "space"]) (Some [JFlt (Fin 512); JNull]) None None None None);
+              OAddProps 1 (JList [JObj [("identifier", JStr "lab"); ("dtype", JStr "<U5")]; JObj [("identifier", JStr "w"); ("dtype", JStr "f4")]]) (JStr "node")] in
+  List.length (run "1.3" [] ops) = 3%nat /\
+  forallb (fun m => inv_md m) (run "1.3" [] ops) = true /\
+  forallb md_finite (run "1.3" [] ops) = true.
+Proof. vm_compute. repeat split. Qed.
+
+(* the key-level statement is exercised: a format-2 store with a member array, a foreign attribute and an older
+   geff entry; a format-3 store with consolidated metadata in the group document; an empty store *)
+Example C08_nonvacuous_keys :
+  let v2 := [([".zgroup"], KDoc (JObj [("zarr_format", JInt 2)]));
+             ([".zattrs"], KDoc (JObj [("foreign", JInt 1); ("geff", JStr "old")]));
+             (["nodes"; ".zgroup"], KDoc (JObj [("zarr_format", JInt 2)]));
+             (["nodes"; "ids"; ".zarray"], KDoc (JObj [("shape", JList [JInt 2])])); (["nodes"; "ids"; "0"], KChunk [1; 2])] in
+  let v3 := [(["zarr.json"], KDoc (JObj [("attributes", JObj [("foreign", JInt 1)]); ("zarr_format", JInt 3);
+                                          ("consolidated_metadata", JObj [("kind", JStr "inline")]); ("node_type", JStr "group")]))] in
+  md_write_k rich_md v2 = Ok (kset [".zattrs"] (KDoc (JObj [("foreign", JInt 1); ("geff", to_json rich_md)])) v2)
+  /\ match md_write_k rich_md v2 with Ok k => md_read_k "0.0" k | Err e => Err e end = Ok rich_md
+  /\ md_write_k rich_md v3
+     = Ok [(["zarr.json"], KDoc (JObj [("attributes", JObj [("foreign", JInt 1); ("geff", to_json rich_md)]); ("zarr_format", JInt 3);
+                                       ("consolidated_metadata", JObj [("kind", JStr "inline")]); ("node_type", JStr "group")]))]
+  /\ match md_write_k rich_md [] with Ok k => (probe_root k, md_read_k "0.0" k) | Err e => (ROther, Err e) end
+     = (RGroup V3 [("geff", to_json rich_md)], Ok rich_md)
+  /\ md_write_k rich_md [(["zarr.json"], KDoc (JObj [("zarr_format", JInt 3); ("node_type", JStr "group"); ("surprise", JInt 1)]))] = Err TypeError
+  /\ md_write_k rich_md [(["zarr.json"], KDoc (JObj [("zarr_format", JInt 3); ("node_type", JStr "array")]))] = Err ValueError.
+Proof. vm_compute. repeat split. Qed.
